@@ -47,6 +47,8 @@ CONSTANTS Cases,           \* set of cases explored by the model
           DevNoAtomResname,\* deviation (independent seed C02-2): the residue name is not compared when the atoms of a link are looked up
           DevOrderedPairs, \* deviation (independent seed C10-2): joined residue pairs are collected and looked up as ORDERED pairs
           DevGateOnce,     \* deviation (independent seed2-C10-1): the gate skips molecules whose (always empty) graph name was already seen
+          DevGateBuildOnly,\* deviation (independent seed3-C10-2): the gate runs after the coordinate files and skips molecules without a residue to build
+          DevMissingCache, \* deviation (independent seed3-C10-1): the candidate atoms of find_connecting_edges are remembered from the first evaluation
           DevDegree        \* deviation (C10): degree filter of find_connecting_edges compares the wrong way (m12)
 
 VARIABLES case, st
@@ -254,17 +256,39 @@ ResConnected(c, E, rm) == LET live == {r \in Rs(c) : AtomsOf(c, r) \ rm # {}}
                               RE == { {at[1] : at \in e} : e \in {f \in E : Cardinality({at[1] : at \in f}) = 2} }
                           IN live = {} \/ (LET r0 == CHOOSE r \in live : TRUE IN Reach({r0}, RE, c.n) \cap live = live)
 
-(* ---- C10, the gate of gen_coords: quantified over EVERY molecule of the topology *)
-\* conn = Seq(BOOLEAN): for each molecule of the expanded [ molecules ] list, is its residue graph connected
-GateRefuses(conn) == \E i \in DOMAIN conn : ~conn[i]
-\* _check_molecules: one pass over the molecule list, IOError at the first disconnected one.  With DevGateOnce the loop keeps a set
-\* of names already checked - the name it reads is networkx' Graph.name, "" for every molecule - and skips the rest
-RECURSIVE GateLoop(_, _, _)
-GateLoop(conn, i, checked) == IF i > Len(conn) THEN FALSE
-                              ELSE IF DevGateOnce /\ "" \in checked THEN GateLoop(conn, i + 1, checked)
-                              ELSE IF ~conn[i] THEN TRUE
-                              ELSE GateLoop(conn, i + 1, checked \cup {""})
-IGateRefuses(conn) == GateLoop(conn, 1, {})
+(* ---- C10, the gate of gen_coords: quantified over EVERY molecule of the topology, whatever coordinates are supplied *)
+\* mols = Seq([conn, rn]): the expanded [ molecules ] list; conn = the residue graph of the molecule is connected, rn = its residue names.
+\* co = [kind, k, res]: kind "none" | "c" (-c, atom coordinates) | "mc" (-mc, one position per residue); k = number of residues the file
+\* covers (consumed in topology order by residues not named in res); res = residue names given to -res (rebuilt, consume nothing).
+\* What add_positions_from_file makes of it, residue by residue: flags <<build, backmap>>
+RECURSIVE CoordFlags(_, _, _, _, _)
+CoordFlags(mols, co, m, r, used) ==
+  IF m > Len(mols) THEN <<>>
+  ELSE IF r > Len(mols[m].rn) THEN CoordFlags(mols, co, m + 1, 1, used)
+  ELSE IF co.kind = "none" \/ InSeq(mols[m].rn[r], co.res) \/ used >= co.k
+       THEN <<[m |-> m, build |-> TRUE, backmap |-> TRUE]>> \o CoordFlags(mols, co, m, r + 1, used)
+  ELSE IF co.kind = "mc" THEN <<[m |-> m, build |-> FALSE, backmap |-> TRUE]>> \o CoordFlags(mols, co, m, r + 1, used + 1)
+  ELSE <<[m |-> m, build |-> FALSE, backmap |-> FALSE]>> \o CoordFlags(mols, co, m, r + 1, used + 1)
+\* gen_coords generates something for molecule m: a residue position (build) or atom positions (backmap)
+Generated(fl, m) == \E j \in DOMAIN fl : fl[j].m = m /\ (fl[j].build \/ fl[j].backmap)
+\* the clause of C10: a molecule for which anything is generated must be refused if its atoms are not all connected ...
+GateMustRefuse(mols, co) == LET fl == CoordFlags(mols, co, 1, 1, 0) IN \E m \in DOMAIN mols : ~mols[m].conn /\ Generated(fl, m)
+\* ... and a topology of connected molecules must pass; a disconnected molecule that is completely supplied by -c is taken as it is,
+\* the statement says nothing about it (the code refuses it as well; not asserted)
+GateMustPass(mols) == \A m \in DOMAIN mols : mols[m].conn
+\* _check_molecules: one pass over the molecule list, IOError at the first disconnected one, BEFORE any coordinate file is read.
+\* DevGateOnce: a set of names already checked (the name read is networkx' Graph.name, "" for every molecule) skips the rest.
+\* DevGateBuildOnly: the pass runs after the coordinate files and skips molecules in which no residue is flagged build.
+RECURSIVE GateLoop(_, _, _, _)
+GateLoop(mols, fl, i, checked) ==
+  IF i > Len(mols) THEN FALSE
+  ELSE IF DevGateOnce /\ "" \in checked THEN GateLoop(mols, fl, i + 1, checked)
+  ELSE IF DevGateBuildOnly /\ ~(\E j \in DOMAIN fl : fl[j].m = i /\ fl[j].build) THEN GateLoop(mols, fl, i + 1, checked)
+  ELSE IF ~mols[i].conn THEN TRUE
+  ELSE GateLoop(mols, fl, i + 1, checked \cup {""})
+IGateRefuses(mols, co) == GateLoop(mols, CoordFlags(mols, co, 1, 1, 0), 1, {})
+GateOK(mols, co) == /\ GateMustRefuse(mols, co) => IGateRefuses(mols, co)
+                    /\ GateMustPass(mols) => ~IGateRefuses(mols, co)
 
 (* ------------------------------------------------------------------ *)
 (* dangling interactions of a monomer .itp (polyply_parser.py)         *)
@@ -328,7 +352,7 @@ IOutcome(c, l, phi, iv, V) ==
 DictPut(D, new) == IF DevFirstWins THEN D \cup { x \in new : \A y \in D : Key(y) # Key(x) }
                    ELSE { x \in D : \A y \in new : Key(y) # Key(x) } \cup new
 
-St0(c) == [pc |-> IF Len(c.links) = 0 THEN "write" ELSE "begin", li |-> 1, todo |-> {}, V |-> V0(c), dict |-> BlockInts(c), rm |-> {},
+St0(c) == [pc |-> "missing0", missing0 |-> {}, li |-> 1, todo |-> {}, V |-> V0(c), dict |-> BlockInts(c), rm |-> {},
            calls |-> {}, final |-> <<>>, missing |-> {}]
 Init == case \in Cases /\ st = St0(case)
 
@@ -361,21 +385,30 @@ WriteBack == /\ st.pc = "write"
 \* fragment graphs hold no edges except the one of the first residue, which is a copy of its block
 FragDeg(c, at, rm) == IF at[1] = FirstRes(c) THEN Cardinality({e \in BlockEdgesOf(c, at[1]) : at \in e /\ e \cap rm = {}}) ELSE 0
 MolDeg(E, at) == Cardinality({e \in E : at \in e})
-IMissing(c, E, rm) ==
-  LET allowed(r) == { at \in AtomsOf(c, r) \ rm : IF DevDegree THEN FragDeg(c, at, rm) > MolDeg(E, at) ELSE FragDeg(c, at, rm) # MolDeg(E, at) }
-      \* DevOrderedPairs: pairs stored as (residue of the atom inserted first, residue of the other) - atoms are inserted in residue-id
+AllowedAtoms(c, E, rm, r) == { at \in AtomsOf(c, r) \ rm : IF DevDegree THEN FragDeg(c, at, rm) > MolDeg(E, at) ELSE FragDeg(c, at, rm) # MolDeg(E, at) }
+\* Ec, rmc: the molecule the candidate atoms are taken from - the current one; with DevMissingCache the one of the first evaluation
+IMissingC(c, E, rm, Ec, rmc) ==
+  LET \* DevOrderedPairs: pairs stored as (residue of the atom inserted first, residue of the other) - atoms are inserted in residue-id
       \* order - and looked up as (smaller node key, larger node key) - residue nodes are inserted in node-key order
       linked == { p \in Rs(c) \X Rs(c) : \E x \in AtomsOf(c, p[1]), y \in AtomsOf(c, p[2]) : {x, y} \in E /\ NodeKey(c, x) < NodeKey(c, y) }
   IN IF DevOrderedPairs
      THEN { {c.edges[j].a, c.edges[j].b} : j \in {q \in DOMAIN c.edges : <<c.edges[q].a, c.edges[q].b>> \notin linked} }
      ELSE { {c.edges[j].a, c.edges[j].b} : j \in {q \in DOMAIN c.edges :
-              ~ \E x \in allowed(c.edges[q].a), y \in allowed(c.edges[q].b) : {x, y} \in E} }
+              ~ \E x \in AllowedAtoms(c, Ec, rmc, c.edges[q].a), y \in AllowedAtoms(c, Ec, rmc, c.edges[q].b) : {x, y} \in E} }
+IMissing(c, E, rm) == IMissingC(c, E, rm, E, rm)
+\* the missing links may be asked for at any time: here once on the freshly mapped molecule (before any link) ...
+FindMissing0 == /\ st.pc = "missing0"
+                /\ st' = [st EXCEPT !.pc = IF Len(case.links) = 0 THEN "write" ELSE "begin", !.missing0 = IMissing(case, st.V.edges, {})]
+                /\ UNCHANGED case
 FindMissing == /\ st.pc = "missing"
-               /\ st' = [st EXCEPT !.pc = "done", !.missing = IMissing(case, st.final.edges, st.final.removed)]
+               \* ... and once after link application, on the same residue graph: the answer is a function of the current molecule only
+               /\ st' = [st EXCEPT !.pc = "done",
+                                   !.missing = IF DevMissingCache THEN IMissingC(case, st.final.edges, st.final.removed, V0(case).edges, {})
+                                               ELSE IMissing(case, st.final.edges, st.final.removed)]
                /\ UNCHANGED case
 \* the order in which the matches of one link are tried is not under the code's control (GraphMatcher iteration order)
 TryAny == \E phi \in st.todo : TryMatch(phi)
-Next == BeginLink \/ TryAny \/ EndLink \/ WriteBack \/ FindMissing
+Next == FindMissing0 \/ BeginLink \/ TryAny \/ EndLink \/ WriteBack \/ FindMissing
 Spec == Init /\ [][Next]_vars
 
 (* ---- I-layer |= P-layer *)
@@ -384,7 +417,8 @@ FinalIsExpected == st.pc \in {"missing", "done"} => st.final = PFinal(case)
 \* every attempt the code makes is a residue-level match, and its outcome is the declared one
 CallsSound == st.pc = "write" => st.calls = PEnd(case).calls
 \* exactly one of {atom edge, reported missing} per residue edge
-MissingIsExpected == st.pc = "done" => st.missing = Missing(case, st.final.edges)
+MissingIsExpected == /\ st.pc = "done" => st.missing = Missing(case, st.final.edges)
+                     /\ st.pc \notin {"missing0", "root", "chunk", "gate", "trace"} => st.missing0 = Missing(case, BlockEdges(case))
 BondXorMissing == st.pc = "done" => \A j \in DOMAIN case.edges :
                      AtomEdgeBetween(st.final.edges, case.edges[j].a, case.edges[j].b) <=> ({case.edges[j].a, case.edges[j].b} \notin st.missing)
 
